@@ -87,7 +87,7 @@ def check_clauses(d, queries, answers, mode):
       for m in range(0, len(S)):
         for sub in itertools.combinations(S, m):
           if seen_false.get((n, sub)):
-            out.append(("iv:subset-rejected:%s:%s" % (cls, mode),
+            out.append(("iv:subset-rejected:" + (cls if acyc else "cyclic"),
                         "clause (iv): a subset of an accepted combination is rejected",
                         {"node": n, "goals": list(S), "subset": list(sub)}))
   return out
